@@ -108,7 +108,7 @@ type c08step struct {
 
 func TestC08(t *testing.T) {
 	e := vlib.GetEnv()
-	n := e.Pick(200, 6000)
+	n := e.Pick(200, 40000)
 	subsets := [][]string{{"Added", "Modified", "Deleted"}, {"Added"}, {"Modified"}, {"Deleted"}, {"Added", "Modified"}, {"Added", "Deleted"}, {"Modified", "Deleted"}, {}}
 	vlib.RunCases(t, "C08", "informer", n, func(c *vlib.Case) vlib.Result {
 		var res vlib.Result
